@@ -8,6 +8,10 @@ TRUST = ("Trusted base: the TLA+ modules in /verif/spec, TLC, the parser stand-i
          "ANTLR 4.11 Java runtime instead of the compiled C++ parser, which cannot be built offline), the harness codecs. ")
 
 CHECKS = {
+ 'C01': ('model_checking',
+         "TLC explores the generation model GenOps: combination tables that make one statement meet every pair of pool values (null, zero, negative, fractional, empty and padded strings), every arithmetic / comparison / boolean / string / membership / conditional / numeric-function operator at dataset, dataset-scalar, scalar-dataset and component level, every key-overlap pattern over two keys with nested identifier sets, chained second statements; the 27 Kleene rows and dataset well-formedness are invariants. Every transition is a test of run() (B1); random well-typed terms of depth <= 4 over 1-3 datasets (1-3 identifiers, 1-3 measures, 0-20 rows, unicode strings) are validated by VTLOperators_Trace (B2).",
+         "ln/exp/log/sqrt/non-integer power are uninterpreted (domain, null, type only); mod with a zero or negative operand, power of a non-positive base and nvl/if with branches of different numeric types are excluded as not determined (spec/READINGS.md). Numbers compared with 1e-6 relative tolerance; magnitudes bounded (32-bit TLC).",
+         "TLA+ executable semantics, TLC enumeration replayed into run(), TLC trace validation"),
  'C05': ('model_checking',
          "TLC exhaustively explores the set-operator model GenSets (every subset of 3 keys per operand, 2-4 operands in every order, conflicting measures, chained statements) and checks algebraic laws and well-formedness in every state; every explored transition is a candidate test of run() (B1, seeded sample in the quick tier) and random larger inputs are validated by the trace specification VTLOperators_Trace (B2).",
          "Numbers compared with 1e-6 relative tolerance.",
